@@ -18,7 +18,9 @@
 package version
 
 import (
+	"errors"
 	"fmt"
+	"io"
 	"os"
 	"path/filepath"
 	"sync"
@@ -247,6 +249,13 @@ func (vs *storeVersionSet) recover() error {
 	// read edit log
 	for reader.Next() {
 		record, err := reader.Read()
+		if errors.Is(err, io.ErrUnexpectedEOF) {
+			// the last record was cut short: the process died while appending it, so its commit
+			// never returned; the manifest ends with the last complete record.
+			versionLogger.Warn("ignore incomplete record at the end of manifest file",
+				logger.String("path", vs.storePath), logger.String("manifest", manifestPath))
+			break
+		}
 		if err != nil {
 			return fmt.Errorf("recover data from manifest file error:%s", err)
 		}
